@@ -1,7 +1,7 @@
 """C01 configuration for ./check (keys: see checks/propcfg.py)."""
 CFG = {
-    "modules": ["VaxisModel.Props.C01", "VaxisModel.Props.C01Display"],
-    "extractors": ["C07"],
+    "modules": ["VaxisModel.Props.C01", "VaxisModel.Props.C01Display", "VaxisModel.Props.C01Seq"],
+    "extractors": ["C07", "C04", "C18"],
     "drivers": ["C01"],
     "stateful": True,
     "trivial_prefix": ("-", "bytes="),
